@@ -107,6 +107,48 @@ Theorem C17_every_site_rewritten : forall pre d post out T h ctx top a,
 Proof. exact site_rewritten_program. Qed.
 Print Assumptions C17_every_site_rewritten.
 
+(* S1a what S1 rests on, stated on its own: lower_program builds the hook table from the WHOLE
+       declaration list (first pass) and every declaration, wherever it stands, is lowered with
+       exactly that table and the flag clear. (S1 is proved from this invariant — lemma
+       decls_split — so moving the registration into the third pass breaks S1's proof.) *)
+Theorem C17_hook_table_complete_before_bodies : forall pre d post st' out n,
+  lower_decls {| hooks := collect_hooks (pre ++ d :: post) []; structs := []; cur := None |} (pre ++ d :: post)
+    = (st', out, n) ->
+  exists st_d st_d' outd nd,
+    hooks st_d = collect_hooks (pre ++ d :: post) [] /\ cur st_d = None /\
+    lower_decl st_d d = (st_d', outd, nd) /\ incl outd out.
+Proof. exact hook_table_complete. Qed.
+Print Assumptions C17_hook_table_complete_before_bodies.
+
+(* S1b use before declaration: a site in a declaration d written ABOVE `type T = newtype ...`
+       (T capitalised, declared once below) is rewritten like any other. *)
+Theorem C17_forward_reference_rewritten : forall pre d mid nt post out h ctx top a,
+  lower_program (pre ++ d :: mid ++ DNewtype nt :: post) = Some out ->
+  select_newtype_checked_ctor nt = Some h ->
+  (forall nt', In (DNewtype nt') post -> nt_name nt' <> nt_name nt) ->
+  is_uppercase (nt_name nt) = true ->
+  top_of d ctx top -> ctx <> Some (nt_name nt) -> within (site (nt_name nt) a) top ->
+  exists top' a', In top' (flat_map irdecl_exprs out) /\ iwithin (checked_ctor (nt_name nt) h a') top'.
+Proof. exact forward_reference_rewritten. Qed.
+Print Assumptions C17_forward_reference_rewritten.
+
+(* S1c the dependence made visible: under the alternative pass structure lower_program_late (hook
+       registered when the third pass reaches the newtype — not the real code) the forward
+       reference is emitted as the raw constructor, the backward reference is unchanged. *)
+Theorem C17_late_registration_refuted :
+  lower_program [w_sched; w_attempts] =
+    Some [IDFunction "schedule_retries" [ISNode SKAssign [checked_ctor "Attempts" "from_underlying" (IVar "n")]];
+          IDStruct "Attempts" []; IDImpl "Attempts" [("from_underlying", [])]] /\
+  lower_program_late [w_sched; w_attempts] =
+    Some [IDFunction "schedule_retries" [ISNode SKAssign [IStruct "Attempts" [""] [IVar "n"]]];
+          IDStruct "Attempts" []; IDImpl "Attempts" [("from_underlying", [])]] /\
+  lower_program_late [w_attempts; w_sched] = lower_program [w_attempts; w_sched] /\
+  lower_program [w_attempts; w_sched] =
+    Some [IDStruct "Attempts" []; IDImpl "Attempts" [("from_underlying", [])];
+          IDFunction "schedule_retries" [ISNode SKAssign [checked_ctor "Attempts" "from_underlying" (IVar "n")]]].
+Proof. exact late_registration_refuted. Qed.
+Print Assumptions C17_late_registration_refuted.
+
 (* S2  the same at expression level for an arbitrary lowering state, with the link between the
        site's argument and the argument of the emitted hook call. *)
 Theorem C17_every_site_rewritten_expr : forall st e i T a h,
